@@ -76,6 +76,23 @@ def case(rep, drv, rnd, i, tier):
         outs = child(rnd.randrange(1000), hist + [['string', targets[0], opt]])
         variants.append(('after %d other compilations' % len(hist), outs[-1]))
         rep.count('history-length=%d' % len(hist))
+        # the same through a file: compiled before with other options, and holding - under the same name,
+        # size and time stamp - another program before
+        tpath = os.path.join(td, 'target.prolog')
+        a_text, b_text = targets[0] + '\nzz(a).\n', targets[0] + '\nzz(b).\n'
+        fbase = child(0, [['write', [tpath, a_text], ''], ['file', tpath, opt]])[-1]
+        fhist = []
+        if rnd.random() < 0.7:
+            fhist += [['write', [tpath, b_text], ''], ['file', tpath, rnd.choice([opt, 'default', 'plain'])]]
+        fhist += [['write', [tpath, a_text], '']]
+        if rnd.random() < 0.7:
+            fhist += [['file', tpath, rnd.choice(['default', 'plain', 'sub-debug-filename'])]]
+        fouts = child(rnd.randrange(1000), fhist + [['file', tpath, opt]])
+        if fouts[-1] != fbase:
+            rep.violation({'text': a_text, 'options': opt, 'history': fhist, 'kind': 'output for a file differs after earlier compilations of the same path',
+                           'baseline': fbase[1][:2000] if fbase[0] == 'ok' else fbase, 'variant': fouts[-1][1][:2000] if fouts[-1][0] == 'ok' else fouts[-1]})
+            return
+        rep.count('file-target-histories')
     payload = {'text': targets[0], 'options': opt, 'history': hist}
     for what, v in variants:
         if v != base:
@@ -103,7 +120,8 @@ def run(tier):
         chk.finish(rule='each program (clauses with several fresh variables, names differing only in case, anonymous variables, '
                         'if-then-else labels) is compiled in a fresh process with PYTHONHASHSEED=0, in 3 fresh processes with other '
                         'seeds, and at the end of a process that first performed 1-5 other compilations (strings, files, failing inputs, '
-                        'other option objects incl. subclasses of CompilerContext with debug flags); all outputs must be byte-identical, '
+                        'other option objects incl. subclasses of CompilerContext with debug flags), and as a file that was compiled before with other '
+                        'options and held another program under the same name, size and time stamp; all outputs must be byte-identical, '
                         'and ast-identical to the model of the compiler (declaration order not normalised); distinct = distinct texts')
 
 
